@@ -25,7 +25,7 @@ OPS = ["linear", "linear_readout", "matmul", "conv1d", "add", "embedding", "drop
 
 
 def gen_cases(tier: str, seed: int) -> List[Dict[str, Any]]:
-    n = 660 if tier == "quick" else 15000
+    n = 1100 if tier == "quick" else 22000
     cases = []
     for i in range(n):
         cases.append({"fn": OPS[i % len(OPS)], "i": i, "seed": derive_seed(seed, PROPERTY, i) % (2**31), "tier": tier})
